@@ -137,8 +137,184 @@ Example C08_ex_pwd_info_doubles :
   pwd_info (mkp 1 [[97; 34; 98]]) = [34; 47; 97; 34; 34; 98; 34].
 Proof. reflexivity. Qed.
 
-(* TODO (lead, Session + ClientTree): the composed statement name_transparent (create under n =>
-   enter, PWD, list, stat, upload, download, rename, delete denote the same MemFS node) from the
-   codec theorems above.  Since the F08 repair NO quote-free hypothesis is needed any more (it came
-   from PWD only); the one carve-out left is the LIST fallback (leading whitespace, F13), which the
-   default MLSD path does not go through.  Validated at wire level by harness/props/c08.py. *)
+(* ====================================================================================== *)
+(* The composed statement: every path-taking command of a session denotes the SAME node.
+   Sequential session model Model/Session.v (step over the world with the abstract tree, the
+   reference dispatch table re-checked against today's server.py below), driven by the lines the
+   client builds (client_cmd), parsed by the server's parse_command (ev_of_line), arguments
+   resolved by Session.resolve; replies through pwd_info / parse_directory_response / the C06
+   framing and build_mlsx / parse_mlsx_line.  Proofs in Proofs/NamesCompose.v.
+   In Model/Session.v names are abstract text segments, so the tree part is bookkeeping; the
+   weight is in C08_resolve_to_str + C08_event_of_client_line (the segments the server acts on are
+   exactly the client's) and in the reply codecs above. *)
+From Coq Require Import String.
+From Verif Require Import Lib.Facts Model.Multi Proofs.TreeFrame Proofs.GenTable Proofs.NamesCompose Gen.Dispatch.
+From Verif Require Import Model.Session Model.NamesSession.
+Open Scope list_scope.
+
+(* the decorator table the session model runs on is the one regenerated from server.py today *)
+Theorem C08_session_table_is_reference : table_eqb gen_table ref_table = true.
+Proof. vm_compute. reflexivity. Qed.
+Print Assumptions C08_session_table_is_reference.
+
+(* the server's resolver sends the string of a client path to exactly the client's segments *)
+Theorem C08_resolve_to_str : forall cwd p, valid_path p ->
+  Session.resolve cwd (to_str p) = target cwd p.
+Proof. exact resolve_to_str. Qed.
+Print Assumptions C08_resolve_to_str.
+
+(* the event the dispatcher gets from the client's line: lower-cased verb, the path string *)
+Theorem C08_event_of_client_line : forall verb p d, verb <> [] -> nows verb -> valid_path p ->
+  ev_of_line (client_cmd verb p) d = Some {| e_verb := lower verb; e_arg := to_str p; e_data := d |}.
+Proof. exact ev_of_client_cmd. Qed.
+Print Assumptions C08_event_of_client_line.
+
+(* FULL composed statement.  For every user table, every logged-in world w with working directory cwd
+   (any depth), every valid path p (relative or absolute, any depth, any code points) whose node is
+   par/n with par an existing directory in which n is free and below which the user may read and write:
+   MKD creates exactly par/n; CWD enters it and PWD reports it; MLSD of the parent lists exactly one
+   entry named n whose line decodes to n and whose yielded path denotes the node; MLST asks the
+   backend about exactly it and its reply decodes to n; STOR p/f then RETR p/f round-trips the bytes
+   through the node par/n/f and DELE removes exactly it; RNFR p, RNTO q moves it to the free sibling
+   par/m; RMD removes exactly it (the tree is the one before MKD). *)
+Theorem C08_name_transparent : forall users ui u, nth_error users ui = Some u ->
+  forall w cwd p par n ch,
+    ready ui w cwd -> valid_path p -> target cwd p = par ++ [n] ->
+    (forall q, rw u (par ++ q)) -> Forall valid_name par ->
+    lookup par (w_fs w) = Some (NDir ch) -> assoc_t n ch = None ->
+    valid_name n /\
+    exists w1 o1,
+      cstep users w (client_cmd (t_of "MKD") p) DNone = Some (w1, o1) /\ o_codes o1 = [code "257"] /\
+      w_fs w1 = graft par (NDir (ch ++ [(n, NDir [])])) (w_fs w) /\
+      lookup (par ++ [n]) (w_fs w1) = Some (NDir []) /\ ready ui w1 cwd /\
+      (exists w2 o2 w3 o3,
+         cstep users w1 (client_cmd (t_of "CWD") p) DNone = Some (w2, o2) /\ o_codes o2 = [code "250"] /\
+         s_cwd (w_s w2) = par ++ [n] /\
+         cstep users w2 (t_of "PWD" ++ eol) DNone = Some (w3, o3) /\ o_codes o3 = [code "257"] /\
+         (forall k, exists info rest,
+            parse_response (split_lines (reply_wire (t_of "257", [pwd_info (mkp 1 (s_cwd (w_s w3)))], false) ++ k))
+              = POk (t_of "257") info rest
+            /\ rest = split_lines k /\ parse_directory_response (last info []) = mkp 1 (par ++ [n]))) /\
+      (forall la, list_arg la -> Session.resolve cwd la = par ->
+         exists w' oa ob o,
+           irun users w1 (prep ++ [ILine (list_cmd (t_of "MLSD") la) DNone]) = Some (w', [oa; ob; o]) /\
+           o_listing o = Some (map entry ch ++ [(n, true, 0)]) /\
+           filter (named n) (map entry ch ++ [(n, true, 0)]) = [(n, true, 0)] /\ w_fs w' = w_fs w1) /\
+      (forall F, nosp F -> option_map fst (parse_mlsx_line (F ++ SP :: n ++ eol)) = Some (mkp 0 [n])) /\
+      (forall q, target cwd q = par -> target cwd (joinp q (mkp 0 [n])) = par ++ [n]) /\
+      (exists w' o, cstep users w1 (client_cmd (t_of "MLST") p) DNone = Some (w', o) /\ o_codes o = [code "250"] /\
+         w_log w' = w_log w1 ++ [("exists"%string, par ++ [n]); ("stat"%string, par ++ [n])] /\ w_fs w' = w_fs w1) /\
+      (forall c start fin F k, good_code c -> lf_free start -> lf_free fin -> lf_free F -> F <> [] -> nows F ->
+         exists info rest,
+           parse_response (split_lines (reply_wire (c, [start; F ++ SP :: n; fin], true) ++ k)) = POk c info rest
+           /\ rest = split_lines k /\ option_map fst (stat_parse info) = Some (mkp 0 [n])) /\
+      (forall pf f bytes, valid_path pf -> target cwd pf = (par ++ [n]) ++ [f] ->
+         exists w' o1 o2 o3 o4 o5 o6,
+           irun users w1 (prep ++ [ILine (client_cmd (t_of "STOR") pf) (DSend bytes)] ++
+                          prep ++ [ILine (client_cmd (t_of "RETR") pf) DNone]) = Some (w', [o1; o2; o3; o4; o5; o6]) /\
+           o_bytes o6 = Some bytes /\ lookup ((par ++ [n]) ++ [f]) (w_fs w') = Some (NFile bytes) /\
+           exists w'' o, cstep users w' (client_cmd (t_of "DELE") pf) DNone = Some (w'', o) /\ o_codes o = [code "250"] /\
+             w_fs w'' = w_fs w1) /\
+      (forall q m, valid_path q -> target cwd q = par ++ [m] -> assoc_t m ch = None -> m <> n ->
+         exists w' oa ob,
+           irun users w1 [ILine (client_cmd (t_of "RNFR") p) DNone; ILine (client_cmd (t_of "RNTO") q) DNone]
+             = Some (w', [oa; ob]) /\ o_codes oa = [code "350"] /\ o_codes ob = [code "250"] /\
+           w_fs w' = graft par (NDir (ch ++ [(m, NDir [])])) (w_fs w) /\
+           lookup (par ++ [m]) (w_fs w') = Some (NDir []) /\ lookup (par ++ [n]) (w_fs w') = None) /\
+      (exists w' o, cstep users w1 (client_cmd (t_of "RMD") p) DNone = Some (w', o) /\ o_codes o = [code "250"] /\
+         w_fs w' = w_fs w).
+Proof. exact name_transparent. Qed.
+Print Assumptions C08_name_transparent.
+
+(* the per-command statements it is composed of hold from EVERY ready world (not only right after MKD):
+   entering and reporting any existing directory ... *)
+Theorem C08_nt_cwd_pwd : forall users ui u, nth_error users ui = Some u ->
+  forall w cwd p P chP,
+    ready ui w cwd -> valid_path p -> target cwd p = P -> rw u P -> lookup P (w_fs w) = Some (NDir chP) ->
+    P <> [] -> Forall valid_name P ->
+    exists w2 o2 w3 o3,
+      cstep users w (client_cmd (t_of "CWD") p) DNone = Some (w2, o2) /\ o_codes o2 = [code "250"] /\
+      s_cwd (w_s w2) = P /\
+      cstep users w2 (t_of "PWD" ++ eol) DNone = Some (w3, o3) /\ o_codes o3 = [code "257"] /\
+      w_fs w3 = w_fs w /\ ready ui w3 P /\
+      (forall k, exists info rest,
+         parse_response (split_lines (reply_wire (t_of "257", [pwd_info (mkp 1 (s_cwd (w_s w3)))], false) ++ k))
+           = POk (t_of "257") info rest
+         /\ rest = split_lines k /\ parse_directory_response (last info []) = mkp 1 P) /\
+      target (s_cwd (w_s w3)) (mkp 1 P) = P /\
+      (* the text Model/Session.v records for the 257 reply is the reply of Model/Names.v (quotes doubled) *)
+      o_info o3 = pwd_info (mkp 1 P).
+Proof. exact nt_cwd_pwd. Qed.
+Print Assumptions C08_nt_cwd_pwd.
+
+(* ... listing any existing directory, with MLSD and with the LIST fallback: the session part is
+   the same for both verbs (the model's listing of exactly that node); the carve-out of the LIST
+   fallback is on the client's decoding side only: C08_list_name_roundtrip_partial needs
+   lstrip name = name, C08_list_name_leading_space_refuted shows it is needed (F13) *)
+Theorem C08_nt_listing : forall users ui u, nth_error users ui = Some u ->
+  forall (U l okc : string) w cwd la D chD,
+    (U = "MLSD" /\ l = "mlsd" /\ okc = "200" \/ U = "LIST" /\ l = "list" /\ okc = "226")%string ->
+    ready ui w cwd -> list_arg la -> Session.resolve cwd la = D -> rw u D -> lookup D (w_fs w) = Some (NDir chD) ->
+    exists w' oa ob o,
+      irun users w (prep ++ [ILine (list_cmd (t_of U) la) DNone]) = Some (w', [oa; ob; o]) /\
+      o_codes o = [code "150"; code okc] /\ o_listing o = Some (map entry chD) /\
+      w_fs w' = w_fs w /\ ready ui w' cwd.
+Proof. exact nt_listing. Qed.
+Print Assumptions C08_nt_listing.
+
+(* ... storing to a free name below any existing directory and reading it back ... *)
+Theorem C08_nt_stor_retr : forall users ui u, nth_error users ui = Some u ->
+  forall w cwd pf D f chD bytes,
+    ready ui w cwd -> valid_path pf -> target cwd pf = D ++ [f] -> rw u (D ++ [f]) ->
+    lookup D (w_fs w) = Some (NDir chD) -> assoc_t f chD = None ->
+    exists w' o1 o2 o3 o4 o5 o6,
+      irun users w (prep ++ [ILine (client_cmd (t_of "STOR") pf) (DSend bytes)] ++
+                    prep ++ [ILine (client_cmd (t_of "RETR") pf) DNone]) = Some (w', [o1; o2; o3; o4; o5; o6]) /\
+      o_codes o3 = [code "150"; code "226"] /\ o_codes o6 = [code "150"; code "226"] /\ o_bytes o6 = Some bytes /\
+      w_fs w' = graft D (NDir (chD ++ [(f, NFile bytes)])) (w_fs w) /\
+      lookup D (w_fs w') = Some (NDir (chD ++ [(f, NFile bytes)])) /\
+      lookup (D ++ [f]) (w_fs w') = Some (NFile bytes) /\ ready ui w' cwd.
+Proof. exact nt_stor_retr. Qed.
+Print Assumptions C08_nt_stor_retr.
+
+(* ... renaming any existing node to a free sibling name *)
+Theorem C08_nt_rename : forall users ui u, nth_error users ui = Some u ->
+  forall w cwd p q par n m ch x,
+    ready ui w cwd -> valid_path p -> valid_path q -> target cwd p = par ++ [n] -> target cwd q = par ++ [m] ->
+    rw u (par ++ [n]) -> rw u (par ++ [m]) ->
+    lookup par (w_fs w) = Some (NDir ch) -> assoc_t n ch = Some x -> assoc_t m ch = None ->
+    exists w' o1 o2,
+      irun users w [ILine (client_cmd (t_of "RNFR") p) DNone; ILine (client_cmd (t_of "RNTO") q) DNone] = Some (w', [o1; o2]) /\
+      o_codes o1 = [code "350"] /\ o_codes o2 = [code "250"] /\
+      w_fs w' = graft par (NDir (remove_t n ch ++ [(m, x)])) (w_fs w) /\ ready ui w' cwd.
+Proof. exact nt_rename. Qed.
+Print Assumptions C08_nt_rename.
+
+(* non-vacuity: the hypotheses of C08_name_transparent hold together for the names a<q>b, <space>x,
+   Type=dir; y, 250 z, spelled relative to the working directory "/ x" and absolutely (depth 2), and
+   the model runs on the client's lines for them *)
+Example C08_ex_compose_hypotheses :
+  nth_error ex_users 0 = Some ex_user /\
+  Forall (fun n =>
+    Forall (fun p =>
+      ready 0 ex_w [n_sp] /\ valid_path p /\ target [n_sp] p = [n_sp] ++ [n] /\
+      (forall q, rw ex_user ([n_sp] ++ q)) /\ Forall valid_name [n_sp] /\
+      lookup [n_sp] (w_fs ex_w) = Some (NDir []) /\ assoc_t n ([] : list (text * node)) = None)
+    [mkp 0 [n]; mkp 1 [n_sp; n]]) ex_names.
+Proof. exact ex_hypotheses. Qed.
+Example C08_ex_compose_run :
+  option_map (fun r => (w_fs (fst r), s_cwd (w_s (fst r))))
+    (irun ex_users ex_w
+       [ILine (client_cmd (t_of "MKD") (mkp 0 [n_q])) DNone;
+        ILine (client_cmd (t_of "MKD") (mkp 1 [n_sp; n_sp])) DNone;
+        ILine (client_cmd (t_of "MKD") (mkp 0 [n_ty])) DNone;
+        ILine (client_cmd (t_of "MKD") (mkp 1 [n_sp; n_250])) DNone;
+        ILine (client_cmd (t_of "CWD") (mkp 0 [n_ty])) DNone])
+  = Some (NDir [(n_sp, NDir [(n_q, NDir []); (n_sp, NDir []); (n_ty, NDir []); (n_250, NDir [])])],
+          [n_sp; n_ty]).
+Proof. exact ex_run. Qed.
+
+(* Not covered by the composed theorem: RNTO to a different parent directory, STOR onto an existing file /
+   APPE / REST offsets (C05, C09), permission refusals (C04), concurrency (C17); what Model/Session.v
+   abstracts (the data-channel bytes of a listing, the facts of an entry) enters through the codec
+   theorems only. *)
